@@ -406,6 +406,11 @@ func init() {
 					return append(append(append(append(pp(x), pp(x)...), 0x7e), gen.PushNum(int64(len(x)))...), 0x7f, 0x75)
 				}},
 				{"BIN2NUM", func(x []byte) []byte { return append(pp(x), 0x81) }},
+				// the small-integer opcodes push constants: what is done to the pushed item must stay with that item
+				{"OP_1", func(x []byte) []byte { return []byte{0x51} }},
+				{"OP_5", func(x []byte) []byte { return []byte{0x55} }},
+				{"OP_16", func(x []byte) []byte { return []byte{0x60} }},
+				{"OP_1NEGATE", func(x []byte) []byte { return []byte{0x4f} }},
 			}
 			type sharing struct {
 				name       string
